@@ -300,7 +300,7 @@ int RunCase(const vh::Args& args, uint64_t c, e7::Affinity& aff)
             int64_t step = slow_clock ? r.range(0, 1) : r.range(0, 3);
             if (sh.finish.load()) step = 7200;
             else if (slow_clock) {}
-            else if (allow_big_jump && r.chance(1, 60)) step = 1260 + r.range(0, 60);
+            else if (allow_big_jump && r.chance(1, 30)) step = 1260 + r.range(0, 60);
             else if (r.chance(1, 25)) step = 30;
             const int64_t t = sh.mock_s.load() + step;
             sh.mock_s.store(t);
